@@ -471,3 +471,91 @@ Proof. cbn. repeat split; lia. Qed.
 Example ex_run : exists b, impl_run sb_new ex_ops = Ok b /\ entries b = [(1%N, 10%N); (3%N, 30%N)]
                            /\ sb_export b = Ok [(1%N, 10%N); (3%N, 30%N)].
 Proof. eexists. split; [reflexivity|]. split; reflexivity. Qed.
+
+(** StateDB.updateStorage with a failing storage (state/statedb/statedb.go).
+
+    [before := states.Buffer.snapshot()] is taken ONCE, before the loop over the cached contract
+    storages; when [storage.update()] (or the account lookup) fails for one of them the account
+    buffer is rolled back to [before] and the error returned.  The storages are walked in map
+    order, so the list below stands for any order.  Per storage: [None] = update fails,
+    [Some None] = updated, not dirty (no account entry), [Some (Some v)] = dirty: the account
+    entry [v] carrying the new storage root is put. *)
+Section UpdateFault.
+  Context {V : Type}.
+  Notation entry := (entry V).
+  Notation sbuf := (sbuf V).
+
+  Fixpoint upd_loop (b : sbuf) (before : nat) (l : list (key * option (option V))) : res (sbuf * bool) :=
+    match l with
+    | [] => Ok (b, true)
+    | (_, None) :: _ => bind (sb_rollback b before) (fun b' => Ok (b', false))
+    | (_, Some None) :: tl => upd_loop b before tl
+    | (k, Some (Some v)) :: tl => upd_loop (sb_put b (k, v)) before tl
+    end.
+  (** updateStorage: (buffer, true) on success, (buffer, false) when an error is returned *)
+  Definition update_storage (b : sbuf) (l : list (key * option (option V))) : res (sbuf * bool) :=
+    upd_loop b (sb_snapshot b) l.
+
+  (** the variant with the snapshot taken inside the loop (per storage), kept as a witness *)
+  Fixpoint upd_loop_inner (b : sbuf) (l : list (key * option (option V))) : res (sbuf * bool) :=
+    match l with
+    | [] => Ok (b, true)
+    | (_, None) :: _ => bind (sb_rollback b (sb_snapshot b)) (fun b' => Ok (b', false))
+    | (_, Some None) :: tl => upd_loop_inner b tl
+    | (k, Some (Some v)) :: tl => upd_loop_inner (sb_put b (k, v)) tl
+    end.
+
+  Lemma upd_loop_spec l : forall (b0 b : sbuf) ext,
+    wf b0 -> wf b -> entries b = entries b0 ++ ext ->
+    exists b' ok, upd_loop b (next_idx b0) l = Ok (b', ok) /\ wf b' /\
+      (ok = false -> entries b' = entries b0 /\ next_idx b' = next_idx b0) /\
+      (ok = true -> Forall (fun x => snd x <> None) l) /\
+      (ok = false -> Exists (fun x => snd x = None) l).
+  Proof.
+    induction l as [|[k [[v|]|]] tl IH]; intros b0 b ext W0 W E; cbn [upd_loop].
+    - exists b, true. split; [reflexivity|]. split; [auto|]. split; [discriminate|]. split; [intros _; constructor|discriminate].
+    - destruct (IH b0 (sb_put b (k, v)) (ext ++ [(k, v)]) W0 (wf_put _ _ W)) as (b' & ok & H1 & H2 & H3 & H4 & H5).
+      { cbn. rewrite E. now rewrite app_assoc. }
+      exists b', ok. split; [exact H1|]. split; [exact H2|]. split; [exact H3|]. split.
+      + intros Hk. constructor; [cbn; discriminate|auto].
+      + intros Hk. apply Exists_cons_tl. auto.
+    - destruct (IH b0 b ext W0 W E) as (b' & ok & H1 & H2 & H3 & H4 & H5).
+      exists b', ok. split; [exact H1|]. split; [exact H2|]. split; [exact H3|]. split.
+      + intros Hk. constructor; [cbn; discriminate|auto].
+      + intros Hk. apply Exists_cons_tl. auto.
+    - assert (Hle : next_idx b0 <= next_idx b).
+      { destruct W0 as [N0 _], W as [N1 _]. rewrite N0, N1, E, app_length. lia. }
+      destruct (rollback_ok b (next_idx b0) W Hle) as (b' & R & Wb & Eb & Nb).
+      rewrite R. cbn. exists b', false. split; [reflexivity|]. split; [exact Wb|]. split; [|split; [discriminate|]].
+      + intros _. split; [|exact Nb]. rewrite Eb, E. destruct W0 as [N0 _]. rewrite N0. rewrite firstn_app, Nat.sub_diag, firstn_all. cbn. now rewrite app_nil_r.
+      + intros _. apply Exists_cons_hd. reflexivity.
+  Qed.
+
+  (** updateStorage never panics; it fails exactly when some storage fails, in whatever order the
+      storages are walked; a failed call leaves the account buffer as it was before the call:
+      same log, same revision, same answer to every read *)
+  Theorem failed_update_restores (b : sbuf) l :
+    wf b ->
+    exists b' ok, update_storage b l = Ok (b', ok) /\ wf b' /\
+      (ok = false <-> Exists (fun x => snd x = None) l) /\
+      (ok = false -> entries b' = entries b /\ next_idx b' = next_idx b /\ forall k, sb_get b' k = sb_get b k).
+  Proof.
+    intros W. unfold update_storage, sb_snapshot.
+    destruct (upd_loop_spec l b b [] W W) as (b' & ok & H1 & H2 & H3 & H4 & H5); [now rewrite app_nil_r|].
+    exists b', ok. split; auto. split; auto. split.
+    - split; auto. intros Hex. destruct ok; auto. specialize (H4 eq_refl).
+      apply Exists_exists in Hex. destruct Hex as (x & Hin & Hx). rewrite Forall_forall in H4. now apply H4 in Hin.
+    - intros Hk. destruct (H3 Hk) as [He Hn]. repeat split; auto. intros k. rewrite !get_latest; auto. now rewrite He.
+  Qed.
+End UpdateFault.
+
+(** witness: with the snapshot taken inside the loop the entry put for an earlier healthy storage
+    survives the failed call (and is visible to reads) *)
+Example inner_snapshot_leaves_writes :
+  let b := @sb_new N in
+  match update_storage b [(1%N, Some (Some 7%N)); (2%N, None)], upd_loop_inner b [(1%N, Some (Some 7%N)); (2%N, None)] with
+  | Ok (b1, false), Ok (b2, false) =>
+      entries b1 = [] /\ sb_get b1 1%N = Ok None /\ entries b2 = [(1%N, 7%N)] /\ sb_get b2 1%N = Ok (Some (1%N, 7%N))
+  | _, _ => False
+  end.
+Proof. vm_compute. repeat split. Qed.
